@@ -1021,14 +1021,33 @@ func restoreCallbackDelegates(c *Ctx, r *Report, rule string, owner string, read
 		if recvTypeName(f) != owner {
 			continue
 		}
+		isReader := func(g *ssa.Function) bool {
+			if recvTypeName(g) != readerRecv {
+				return false
+			}
+			for _, p := range g.Params {
+				if isIOType(p.Type(), "Reader") {
+					return true
+				}
+			}
+			return false
+		}
 		var loads []ssa.Instruction
 		eachInstr(f, func(i ssa.Instruction) {
 			if cl, ok := i.(*ssa.Call); ok {
-				if g := cl.Call.StaticCallee(); g != nil && recvTypeName(g) == readerRecv {
-					for _, p := range g.Params {
-						if isIOType(p.Type(), "Reader") {
-							loads = append(loads, i)
-						}
+				g := cl.Call.StaticCallee()
+				if g == nil || !modLocal(g) {
+					return
+				}
+				if isReader(g) {
+					loads = append(loads, i)
+					return
+				}
+				// a helper that runs the reader on every successful path of its own
+				for h := range c.reachableFrom([]*ssa.Function{g}, false, true) {
+					if isReader(h) && recvTypeName(g) == owner {
+						loads = append(loads, i)
+						return
 					}
 				}
 			}
@@ -1081,23 +1100,119 @@ func persistConsumesAllParts(c *Ctx, r *Report, rule string) {
 			ok := false
 			eachInstr(f, func(i ssa.Instruction) {
 				cl, isC := i.(*ssa.Call)
-				if !isC || cl.Call.StaticCallee() == nil || !modLocal(cl.Call.StaticCallee()) {
+				if !isC {
 					return
 				}
-				uses := false
-				for _, a := range cl.Call.Args {
-					if a == ssa.Value(p) {
-						uses = true
+				writes := false
+				if g := cl.Call.StaticCallee(); g != nil && modLocal(g) {
+					// a writer: handed the part, transitively Sets into the batch
+					for _, a := range cl.Call.Args {
+						if a == ssa.Value(p) || paramRoot(a) == ssa.Value(p) {
+							writes = setsBatch(c, g)
+						}
+					}
+				} else if id := callID(&cl.Call); id.Name == "Set" && id.Recv == "WriteBatch" {
+					// or the write itself, of bytes marshalled from the part
+					for _, a := range cl.Call.Args {
+						for _, o := range origins(a, originOpt{}) {
+							if ex, isEx := o.(*ssa.Extract); isEx {
+								if mc, isM := ex.Tuple.(*ssa.Call); isM && callID(&mc.Call).Name == "Marshal" && len(mc.Call.Args) > 0 && paramRoot(mc.Call.Args[0]) == ssa.Value(p) {
+									writes = true
+								}
+							}
+						}
 					}
 				}
-				// a writer: transitively Sets into the batch
-				if uses && setsBatch(c, cl.Call.StaticCallee()) && instrDominates(i, flushRet.Return) {
+				if writes && (instrDominates(i, flushRet.Return) || skippedOnlyWhenEmpty(f, cl, flushRet.Return, p)) {
 					ok = true
 				}
 			})
 			r.Check(ok, rule, fnName(f), "writes-"+p.Name(), c.Pos(f.Pos()), "the part `"+p.Name()+"` of a Ready is handed to its writer on every path to Flush (entries that arrive together with a snapshot are not dropped)")
 		}
 	}
+}
+
+// paramRoot: the parameter a value is (a copy of): the parameter itself, a load of the cell go/ssa spills it into, or that
+// cell's address.
+func paramRoot(v ssa.Value) ssa.Value {
+	v = strip(v)
+	if p, ok := v.(*ssa.Parameter); ok {
+		return p
+	}
+	if l, ok := loadOf(v); ok {
+		v = strip(l)
+	}
+	al, ok := v.(*ssa.Alloc)
+	if !ok {
+		return nil
+	}
+	var root ssa.Value
+	n := 0
+	for _, u := range *al.Referrers() {
+		if st, isS := u.(*ssa.Store); isS && st.Addr == ssa.Value(al) {
+			n++
+			if p, isP := st.Val.(*ssa.Parameter); isP {
+				root = p
+			}
+		}
+	}
+	if n == 1 {
+		return root
+	}
+	return nil
+}
+
+// skippedOnlyWhenEmpty: every branch that lets control reach ret without executing call is a test of part itself
+// (len(part) == 0, IsEmptySnap(part), IsEmptyHardState(part)), and call lies on the path to ret otherwise.
+func skippedOnlyWhenEmpty(f *ssa.Function, call *ssa.Call, ret ssa.Instruction, part *ssa.Parameter) bool {
+	if _, reach := reachesAvoiding(f, call, func(z ssa.Instruction) bool { return z == ret }, nil); !reach {
+		return false
+	}
+	aboutPart := func(ifi *ssa.If) bool {
+		for _, l := range condLeaves(ifi.Cond, 0) {
+			switch y := l.(type) {
+			case *ssa.Const:
+				continue
+			case *ssa.Parameter:
+				if y != part {
+					return false
+				}
+			case *ssa.Call:
+				okArgs := len(y.Call.Args) > 0
+				for _, a := range y.Call.Args {
+					if paramRoot(a) != ssa.Value(part) {
+						okArgs = false
+					}
+				}
+				id := callID(&y.Call)
+				if !okArgs || !(id.is("builtin", "", "len") || strings.HasPrefix(id.Name, "IsEmpty")) {
+					return false
+				}
+			default:
+				return false
+			}
+		}
+		return true
+	}
+	// barrier: the skipping side of every test that is about the part; then ret must be unreachable from entry without call
+	barrier := map[ssa.Instruction]bool{}
+	for _, ifi := range allIfs(f) {
+		if !aboutPart(ifi) {
+			continue
+		}
+		for _, pol := range []bool{true, false} {
+			if !guardedBy(call.Block(), ifi, pol) {
+				if b := succOn(ifi, pol); len(b.Instrs) > 0 && guardedBy(call.Block(), ifi, !pol) {
+					barrier[b.Instrs[0]] = true
+				}
+			}
+		}
+	}
+	if len(barrier) == 0 {
+		return false
+	}
+	_, escapes := reachesAvoiding(f, nil, func(z ssa.Instruction) bool { return z == ret && !barrier[z] }, func(z ssa.Instruction) bool { return z == ssa.Instruction(call) || barrier[z] })
+	return !escapes
 }
 
 func setsBatch(c *Ctx, g *ssa.Function) bool {
@@ -1174,39 +1289,81 @@ func noGoroutinesInApply(c *Ctx, r *Report, rule string, owner string) {
 // hardStateAlwaysWritten: the hard-state writer returns without writing only for an empty hard state.
 func hardStateAlwaysWritten(c *Ctx, r *Report, rule string) {
 	w := newWal(c)
+	n := 0
 	for _, f := range w.funcs {
-		if f.Parent() != nil || len(f.Params) != 3 || typeName(f.Params[2].Type()) != "HardState" {
+		if f.Parent() != nil {
 			continue
 		}
+		// the write: batch.Set(key, bytes) whose bytes come from (HardState).Marshal
 		var set *ssa.Call
+		var hs ssa.Value
 		eachInstr(f, func(i ssa.Instruction) {
-			if cl, ok := i.(*ssa.Call); ok {
-				if id := callID(&cl.Call); id.Name == "Set" && id.Recv == "WriteBatch" {
+			cl, ok := i.(*ssa.Call)
+			if !ok {
+				return
+			}
+			if id := callID(&cl.Call); id.Name != "Set" || id.Recv != "WriteBatch" {
+				return
+			}
+			for _, a := range cl.Call.Args {
+				for _, o := range origins(a, originOpt{}) {
+					ex, isEx := o.(*ssa.Extract)
+					if !isEx {
+						continue
+					}
+					mc, isC := ex.Tuple.(*ssa.Call)
+					if !isC || callID(&mc.Call).Name != "Marshal" || len(mc.Call.Args) == 0 || typeName(mc.Call.Args[0].Type()) != "HardState" {
+						continue
+					}
 					set = cl
+					hs = paramRoot(mc.Call.Args[0])
 				}
 			}
 		})
 		if set == nil {
-			r.Bad(rule, fnName(f), "writes-hard-state", c.Pos(f.Pos()), "the hard-state writer never writes")
 			continue
 		}
-		k := 0
-		for _, rt := range returnsOf(f) {
-			if !isNilConst(rt.Results[0]) {
+		n++
+		// paths from entry to a success return that avoid the write must take the `is empty` side of a test of the hard state
+		barrier := map[ssa.Instruction]bool{}
+		for _, ifi := range allIfs(f) {
+			cl, isC := ifi.Cond.(*ssa.Call)
+			if !isC || callID(&cl.Call).Name != "IsEmptyHardState" {
 				continue
 			}
-			k++
-			ok := false
-			for _, ifi := range allIfs(f) {
-				if cl, isC := ifi.Cond.(*ssa.Call); isC && callID(&cl.Call).Name == "IsEmptyHardState" && guardedBy(rt.Block(), ifi, true) {
-					ok = true
+			okArg := false
+			for _, a := range cl.Call.Args {
+				if hs != nil && paramRoot(a) == hs {
+					okArg = true
 				}
 			}
-			r.Check(ok, rule, fnName(f), fmt.Sprintf("skip-return#%d", k), c.Pos(rt.Pos()), "the hard state is skipped only when it is empty (a commit-only update must reach the disk: after compaction a stale commit index below the snapshot makes raft panic on restart)")
+			if b := succOn(ifi, true); okArg && len(b.Instrs) > 0 {
+				barrier[b.Instrs[0]] = true
+			}
 		}
-		if k == 0 {
-			r.OK(rule, fnName(f), "writes-hard-state", c.Pos(set.Pos()), "every return is the result of the write")
+		isSuccess := func(z ssa.Instruction) bool {
+			rt, isR := z.(*ssa.Return)
+			if !isR || len(rt.Results) == 0 {
+				return false
+			}
+			last := rt.Results[len(rt.Results)-1]
+			if isNilConst(last) {
+				return true
+			}
+			if cl, isC := last.(*ssa.Call); isC && callID(&cl.Call).Name == "Flush" {
+				return true
+			}
+			return false
 		}
+		at, escapes := reachesAvoiding(f, nil, func(z ssa.Instruction) bool { return !barrier[z] && isSuccess(z) }, func(z ssa.Instruction) bool { return z == ssa.Instruction(set) || barrier[z] })
+		if escapes {
+			r.Bad(rule, fnName(f), "hard-state-written-unless-empty", c.InstrPos(at), "a successful return is reachable without writing a non-empty hard state (a commit-only update must reach the disk: after compaction a stale commit index below the snapshot makes raft panic on restart)")
+		} else {
+			r.OK(rule, fnName(f), "hard-state-written-unless-empty", c.Pos(set.Pos()), fmt.Sprintf("every path to a successful return writes the hard state or is on the empty side of IsEmptyHardState (%d such test(s))", len(barrier)))
+		}
+	}
+	if n == 0 {
+		r.Unk(rule, "storage/wal", "hard-state-writer", "-", "no batch write of a marshalled HardState found")
 	}
 }
 
@@ -1214,15 +1371,15 @@ func hardStateAlwaysWritten(c *Ctx, r *Report, rule string) {
 // stores the snapshot cache also refreshes the memoized first index.
 func walCacheOrdering(c *Ctx, r *Report, rule string) {
 	w := newWal(c)
-	keyOf := func(cc *ssa.CallCommon) string {
+	keyOf := func(cc *ssa.CallCommon) *ssa.Global {
 		for _, a := range cc.Args {
 			if mi, ok := a.(*ssa.MakeInterface); ok {
 				if g := globalOf(mi.X); g != nil {
-					return strings.ToLower(g.Name())
+					return g
 				}
 			}
 		}
-		return ""
+		return nil
 	}
 	isMapCall := func(i ssa.Instruction, name string) (*ssa.CallCommon, bool) {
 		cc := asCall(i)
@@ -1232,6 +1389,49 @@ func walCacheOrdering(c *Ctx, r *Report, rule string) {
 		id := callID(cc)
 		return cc, id.Recv == "Map" && id.Pkg == "sync" && id.Name == name
 	}
+	fi := c.Method("storage/wal", "badgerWAL", "FirstIndex")
+	li := c.Method("storage/wal", "badgerWAL", "LastIndex")
+	if fi == nil || li == nil {
+		r.Unk(rule, "storage/wal.badgerWAL", "FirstIndex/LastIndex", "-", "method not found")
+		return
+	}
+	// cache keys by role, not by name: the snapshot key is the one a raftpb.Snapshot is stored under; the memo keys are
+	// the ones FirstIndex / LastIndex store under
+	snapKeys, firstKeys, lastKeys := map[*ssa.Global]bool{}, map[*ssa.Global]bool{}, map[*ssa.Global]bool{}
+	for _, f := range w.funcs {
+		eachInstr(f, func(i ssa.Instruction) {
+			cc, ok := isMapCall(i, "Store")
+			if !ok {
+				return
+			}
+			k := keyOf(cc)
+			if k == nil {
+				return
+			}
+			for _, a := range cc.Args {
+				if mi, isMI := a.(*ssa.MakeInterface); isMI && typeName(mi.X.Type()) == "Snapshot" {
+					snapKeys[k] = true
+				}
+			}
+		})
+	}
+	for _, f := range []*ssa.Function{fi, li} {
+		eachInstr(f, func(i ssa.Instruction) {
+			if cc, ok := isMapCall(i, "Load"); ok {
+				if k := keyOf(cc); k != nil && !snapKeys[k] {
+					if f == fi {
+						firstKeys[k] = true
+					} else {
+						lastKeys[k] = true
+					}
+				}
+			}
+		})
+	}
+	if len(snapKeys) == 0 || len(firstKeys) == 0 || len(lastKeys) == 0 {
+		r.Unk(rule, fnName(fi), "cache-keys", c.Pos(fi.Pos()), fmt.Sprintf("cache keys not identified by role (snapshot %d, first-index memo %d, last-index memo %d)", len(snapKeys), len(firstKeys), len(lastKeys)))
+		return
+	}
 	// (B) every snapshot-cache store is accompanied by a first-index refresh
 	allRefresh := true
 	for _, f := range w.funcs {
@@ -1239,34 +1439,34 @@ func walCacheOrdering(c *Ctx, r *Report, rule string) {
 		refreshed := false
 		eachInstr(f, func(i ssa.Instruction) {
 			if cc, ok := isMapCall(i, "Store"); ok {
-				k := keyOf(cc)
-				if strings.Contains(k, "snapshot") {
-					snapStore = i
-				}
-				if strings.Contains(k, "firstindex") {
-					refreshed = true
+				if k := keyOf(cc); k != nil {
+					if snapKeys[k] {
+						snapStore = i
+					}
+					if firstKeys[k] {
+						refreshed = true
+					}
 				}
 			}
-			if cc, ok := isMapCall(i, "Delete"); ok && strings.Contains(keyOf(cc), "firstindex") {
-				refreshed = true
+			if cc, ok := isMapCall(i, "Delete"); ok {
+				if k := keyOf(cc); k != nil && firstKeys[k] {
+					refreshed = true
+				}
 			}
 		})
 		if snapStore != nil && !refreshed {
 			allRefresh = false
 		}
 	}
-	fi := c.Method("storage/wal", "badgerWAL", "FirstIndex")
-	if fi == nil {
-		r.Unk(rule, "storage/wal.badgerWAL", "FirstIndex", "-", "method not found")
-	} else {
+	{
 		var snapLoad, firstLoad ssa.Instruction
 		eachInstr(fi, func(i ssa.Instruction) {
 			if cc, ok := isMapCall(i, "Load"); ok {
 				k := keyOf(cc)
-				if strings.Contains(k, "snapshot") && snapLoad == nil {
+				if k != nil && snapKeys[k] && snapLoad == nil {
 					snapLoad = i
 				}
-				if strings.Contains(k, "firstindex") && firstLoad == nil {
+				if k != nil && firstKeys[k] && firstLoad == nil {
 					firstLoad = i
 				}
 			}
@@ -1278,14 +1478,16 @@ func walCacheOrdering(c *Ctx, r *Report, rule string) {
 	for _, f := range w.funcs {
 		var lastCall, store ssa.Instruction
 		eachInstr(f, func(i ssa.Instruction) {
-			if cl, ok := i.(*ssa.Call); ok && cl.Call.StaticCallee() != nil && cl.Call.StaticCallee().Name() == "LastIndex" && recvTypeName(cl.Call.StaticCallee()) == "badgerWAL" {
+			if cl, ok := i.(*ssa.Call); ok && cl.Call.StaticCallee() == li {
 				lastCall = i
 			}
-			if cc, ok := isMapCall(i, "Store"); ok && strings.Contains(keyOf(cc), "lastindex") && store == nil {
-				store = i
+			if cc, ok := isMapCall(i, "Store"); ok && store == nil {
+				if k := keyOf(cc); k != nil && lastKeys[k] {
+					store = i
+				}
 			}
 		})
-		if lastCall == nil || store == nil {
+		if lastCall == nil || store == nil || f == li {
 			continue
 		}
 		_, after := reachesAvoiding(f, store, func(z ssa.Instruction) bool { return z == lastCall }, nil)
@@ -1484,13 +1686,43 @@ func proposerOwnsStructuredFields(c *Ctx, r *Report, rule string) {
 			n++
 			ok := false
 			eachInstr(f, func(i ssa.Instruction) {
-				s, isS := i.(*ssa.Store)
-				if !isS {
-					return
-				}
-				fa, isF := s.Addr.(*ssa.FieldAddr)
-				if isF && fa.X == ssa.Value(ds) && fa.Field == k && instrDominates(i, marshal) {
-					ok = true
+				switch y := i.(type) {
+				case *ssa.Store:
+					fa, isF := y.Addr.(*ssa.FieldAddr)
+					if isF && fa.X == ssa.Value(ds) && fa.Field == k && instrDominates(i, marshal) {
+						ok = true
+					}
+				case *ssa.Call:
+					// a helper that is handed the message and stores the field before each of its returns
+					g := y.Call.StaticCallee()
+					if g == nil || !modLocal(g) || len(g.Blocks) == 0 || !instrDominates(i, marshal) {
+						return
+					}
+					for ai, a := range y.Call.Args {
+						if a != ssa.Value(ds) || ai >= len(g.Params) {
+							continue
+						}
+						var st ssa.Instruction
+						eachInstr(g, func(j ssa.Instruction) {
+							if s2, isS := j.(*ssa.Store); isS {
+								if fa, isF := s2.Addr.(*ssa.FieldAddr); isF && fa.X == ssa.Value(g.Params[ai]) && fa.Field == k {
+									st = j
+								}
+							}
+						})
+						if st == nil {
+							continue
+						}
+						all := true
+						for _, rt := range returnsOf(g) {
+							if !instrDominates(st, rt.Return) {
+								all = false
+							}
+						}
+						if all {
+							ok = true
+						}
+					}
 				}
 			})
 			r.Check(ok, rule, fnName(f), "overwrites-"+fld.Name(), c.Pos(marshal.Pos()), "the field "+fld.Name()+" of the client's message is replaced by server-generated content on every path to the proposal: the apply side indexes it by PartitionCount and parses its ids, so a client-supplied value that is too short or malformed makes every replica panic (or store a nil dataset) on apply and on every replay")
